@@ -244,3 +244,15 @@ func (n *Node) WaitPrimary(d time.Duration) bool {
 	}
 	return n.Store.IsPrimary()
 }
+
+
+// StreamSubscribers is the number of replicas the store believes are connected
+// to it (its change-set subscribers). There is no exported accessor; the field
+// is read through reflection (len of a map, under the harness's own quiescence).
+func StreamSubscribers(s *litefs.Store) int {
+	f := reflect.ValueOf(s).Elem().FieldByName("changeSetSubscribers")
+	if !f.IsValid() || f.Kind() != reflect.Map {
+		return -1
+	}
+	return f.Len()
+}
